@@ -67,6 +67,11 @@ pub mod mpsc {
         pub async fn send(&mut self, v: T) -> (r: Result<(), SendError>)
             ensures r is Ok, final(self).sent@ == old(self).sent@.push(v), final(self).ch == old(self).ch
         { unimplemented!() }
+        // A-tokio-05: try_send does not wait: the value is in the channel exactly when it answers Ok (a full channel refuses it)
+        #[verifier::external_body]
+        pub fn try_send(&mut self, v: T) -> (r: Result<(), SendError>)
+            ensures r is Ok ==> final(self).sent@ == old(self).sent@.push(v), r is Err ==> final(self).sent@ == old(self).sent@, final(self).ch == old(self).ch
+        { unimplemented!() }
     }
 }
 pub mod tokio {
@@ -178,7 +183,7 @@ pub open spec fn outcome(st: ReflectionServiceState, reqs: Seq<Result<ServerRefl
                    2: dict(params='s: &String', ret='(x: ServiceResponse)', ensures=['x.name@ == s@'])},
          hints=[('before', 'let Ok(req) = req else', '                let ghost i = req_rx.pos@ - 1; proof { assert(reqs[i] == req); }'),
                 ('before', 'match resp_msg {', '                proof { assert(req == reqs[i]->Ok_0); }'),
-                ('after', 'resp_tx.send(Err(status)).await.expect("send");', '                        proof { assert(answered(st, reqs, resp_tx.sent@, i)); }')],
+                ('after', 'Err(status) => {', '                        let ghost sent0 = resp_tx.sent@; proof { assert(answered(st, reqs, sent0, i)); assert(forall|v: Result<ServerReflectionResponse, Status>| answered(st, reqs, #[trigger] sent0.push(v), i)); }')],
          body_start='            let ghost reqs = req_rx.items@; let ghost st = state.t;',
          loops={0: dict(invariant=['req_rx.items@ == reqs', '0 <= req_rx.pos@ <= reqs.len()', 'resp_tx.sent@.len() == req_rx.pos@', 'answered(st, reqs, resp_tx.sent@, req_rx.pos@)', 'state.t == st'],
                         decreases=['reqs.len() - req_rx.pos@'])},
